@@ -33,7 +33,7 @@ class Check(RecordingCheck):
             "an import; scheduler traces: 3 workflows x 3 edit histories; oracle: end-to-end runs of real workflows")
 
     def correspond(self):
-        n = 70 if self.tier == "quick" else 900
+        n = 50 if self.tier == "quick" else 900
         self.mismatches = self.correspond_ops(n, 0.45, f"C03_{os.getpid()}")
         self.correspond_traces(f"C03t_{os.getpid()}")
 
